@@ -397,6 +397,8 @@ func (f *Frame) freshResults(sig *types.Signature, at string, st *State, hint st
 func (f *Frame) havocComps(comps []string, all bool, locs []modLoc, framed bool, at string, st *State, origin string) {
 	vc := f.vc
 	bound := st.alloc
+	na := vc.declare(f.nm("alloc"), "Int")
+	vc.assume("true", "(>= "+na+" "+bound+")", "allocation is monotone")
 	if all {
 		vc.epochCtr++
 		// everything becomes unknown: new epoch, forget every component
@@ -412,7 +414,7 @@ func (f *Frame) havocComps(comps []string, all bool, locs []modLoc, framed bool,
 			}
 			ho := vc.heapOf(st, c)
 			hn := vc.declare(c.Name, c.Sort)
-			vc.heapTypeInv(c, hn, vc.curBlk)
+			vc.heapTypeInv(c, hn, vc.curBlk, na)
 			st.heap[c.Name] = hn
 			if framed {
 				for _, fact := range vc.frameFacts(c, hn, ho, bound, locs) {
@@ -421,8 +423,6 @@ func (f *Frame) havocComps(comps []string, all bool, locs []modLoc, framed bool,
 			}
 		}
 	}
-	na := vc.declare(f.nm("alloc"), "Int")
-	vc.assume("true", "(>= "+na+" "+bound+")", "allocation is monotone")
 	st.alloc = na
 }
 
@@ -618,6 +618,9 @@ func (f *Frame) applyContract(x ssa.Instruction, con *Contract, fn *ssa.Function
 func (vc *VC) allowedRange(l modLoc) string {
 	top := vc.topFrame
 	alts := []string{"(>= " + l.Ref + " alloc0)"}
+	if l.Lo != "" {
+		alts = append(alts, "(>= "+l.Lo+" "+l.Hi+")") // empty range: nothing is written
+	}
 	for _, m := range top.modLocs {
 		if m.Comp.Name != l.Comp.Name {
 			continue
@@ -644,13 +647,7 @@ func (f *Frame) calleeEffects(con *Contract, fn *ssa.Function, sig *types.Signat
 	for _, l := range locs {
 		e.comps[l.Comp.Name] = true
 	}
-	for _, t := range con.Touches {
-		if t == "all" {
-			e.all = true
-		} else if t != "none" {
-			e.comps[t] = true
-		}
-	}
+	vc.P.touchesEffects(e, con)
 	// results that are fresh pointers/slices live in their components
 	if sig != nil {
 		for i := 0; i < sig.Results().Len(); i++ {
